@@ -43,7 +43,11 @@ type caseSpec struct {
 }
 
 func (cs *caseSpec) key() string {
-	return fmt.Sprintf("%s|%s|%s|cluster=%v", cs.Pos, cs.Win.Class, zoneClass(cs.Zone), cs.Var.Cluster)
+	k := fmt.Sprintf("%s|%s|%s|cluster=%v", cs.Pos, cs.Win.Class, zoneClass(cs.Zone), cs.Var.Cluster)
+	if cs.Var.Complex {
+		k += "|portioned"
+	}
+	return k
 }
 
 // genCases is the fixed, PRNG-determined case list of a run.
@@ -53,6 +57,9 @@ func genCases(c *run.Ctx) []caseSpec {
 	add := func(pos *position, class, zone string, cluster bool) {
 		cs := caseSpec{Seed: c.Seed(), Idx: len(out), Pos: pos.Name, Win: genWindow(r, class), Zone: zone, WZone: zones[r.Intn(3)]}
 		cs.Var = variant{Cluster: cluster, Metrics15: r.Intn(4) != 0, TempoV2: r.Intn(3) != 0}
+		if strings.HasPrefix(pos.Name, "tempo.search.traceql") {
+			cs.Var.Complex = r.Intn(2) == 0 // the portioned (complex request processor) path
+		}
 		out = append(out, cs)
 	}
 	// Loki tail: one session per reader zone (two in the thorough tier), layouts alternating
@@ -145,6 +152,7 @@ func Main(c *run.Ctx) {
 	c.Assume("index dates: time_series/time_series_gin rows carry the UTC day of the sample (writer onEntries); tempo_traces_attrs_gin/tempo_traces_kv rows carry the span's calendar day in the WRITER's zone (onSpan + ch-go ToDate); profiles_series* rows carry toDate(intDiv(timestamp_ns,1e9)) = UTC day (profiles.sql)")
 	c.Assume("window semantics: Loki [start,end) ns; Tempo [start,end] s; Pyroscope [start,end] ms; Prometheus Select (Start,End] ms with the left edge left open; HTTP PromQL adds the 5 min lookback (or the range) on the left and the controller's 15 s rounding. The instant `end` (and Prometheus' left edge) is never used for a probe or a sentinel")
 	c.Assume("metric queries (LogQL range aggregations, PromQL): rows inside the range bucket enclosing from/to, or inside the 15 s storage bucket enclosing from/to, are neither sentinels nor probes (computed from the query, not from the SQL)")
+	c.Assume("portioned TraceQL searches (complexity estimate answered with 25e6 index rows, half of the TraceQL cases): the shared trace keeps spans outside the window; for those spans only the scans of the attribute index are judged, because the trace-level fields of a search result are read from the whole trace by its id")
 	c.Assume("dependent look-ups (scans without a time bound of their own that are restricted to keys produced by a confined scan: trace info by trace_id, labels by fingerprint) are confined by construction; sentinels own keys, so such a scan admits one only if the key scan leaked")
 	c.Assume("a data-table bound narrower than the requested window (rows inside the window dropped, no index involved) is reported as probe-missing/cause=data-bound: the statement asks that the rows be restricted to the requested window, which a narrower bound does not implement either")
 	c.Assume("Loki tail: the window is [connect time - 5 min, now] of the wall clock; the data is generated relative to the clock just before connecting, sentinels lie 1 ns … 31 days before (generation time - 5 min) and 1 ns … 31 days after (generation time + 10 min), so a delay only moves them further outside; a session longer than 10 min is inconclusive; probes are not required (wall clock)")
@@ -291,9 +299,11 @@ func runCase(c *run.Ctx, rg *rig, cs *caseSpec) {
 	tag := fmt.Sprintf("t%d", cs.Idx)
 	p := newPlan(pos, cs.Win, tag, r)
 	lp := pos.Family == "loki" || pos.Family == "prom"
-	if pos.Family == "tempo" && !p.AllShared {
+	if pos.Family == "tempo" && !p.AllShared && !cs.Var.Complex {
 		p.noShared = true
 	}
+	// (portioned TraceQL searches keep the shared trace: a trace found by an earlier portion is looked up again by
+	// its id in the later ones, and its spans outside the window must stay outside)
 	items := p.genItems(lp)
 	runPrepared(c, rg, pos, cs, p, items, nil)
 }
@@ -583,6 +593,12 @@ func judge(c *run.Ctx, rg *rig, pos *position, cs *caseSpec, p *plan, items []*i
 			if it.Role == roleOther && it.Shared && pos.Index {
 				continue // same labels as a probe: not distinguishable in an index answer
 			}
+			if pos.Family == "tempo" && it.Shared && cs.Var.Complex {
+				// a span of a trace the search found: the trace-level fields of a search result (root name, start
+				// time) are read by trace id from the whole trace (the dependent look-up assumption); only the scans
+				// of the attribute index are judged for such a row
+				continue
+			}
 			if has(body, it) && !has(string(or.Body), it) {
 				hits = append(hits, describe(it))
 				if hit == nil || absDist(p, it) < absDist(p, hit) {
@@ -604,6 +620,9 @@ func judge(c *run.Ctx, rg *rig, pos *position, cs *caseSpec, p *plan, items []*i
 			var culprit *item
 			for _, it := range items {
 				if it.Role != roleSentinel && it.Role != roleOther {
+					continue
+				}
+				if pos.Family == "tempo" && it.Shared && cs.Var.Complex {
 					continue
 				}
 				one, err := build(sel{variant: "ref", one: it})
